@@ -108,6 +108,40 @@ def run(prop, tier, seed, replay=None):
             else:
                 internal.append((r, it))
 
+    # An observation of real threads is not repeatable by itself. A scenario that shows a finding is run again, as it is
+    # (same schedule script): a finding that comes from the code shows again - every seeded change did, on every run -, one
+    # that does not show in two further runs is recorded as unconfirmed and is no alarm (vp check 11: one such, not seen
+    # again in some twenty runs of the whole scenario set).
+    unconfirmed = []
+
+    def confirm(cands):
+        # two scenarios of one run that show a finding independently confirm each other (a change in the code that shows
+        # only under a race shows in several of them; a one-off does not happen twice in a run)
+        if len({r["spec"]["name"] for r, _ in cands}) >= 2:
+            return cands
+        kept = []
+        seen = set()
+        for r, it in cands:
+            if r["spec"]["name"] in seen:
+                continue
+            seen.add(r["spec"]["name"])
+            if len(seen) > 4 and kept:
+                break
+            again = []
+            for _ in range(4):
+                rr = F.run_all([r["spec"]], jobs=1)[0]
+                again = [x for x in rr["fails"] + rr["diffs"] if prop in relevant(x)]
+                if again:
+                    break
+            if again:
+                kept.append((r, it))
+            else:
+                unconfirmed.append({"scenario": r["spec"]["name"], "finding": {k: v for k, v in it.items() if k in ("prop", "why", "kind", "act")}})
+        return kept
+    if not replay:
+        violations = confirm(violations)
+        internal = confirm(internal) if not violations else internal
+
     rc, lines, replay_path = 0, [], None
     for kf in {k["id"]: k for k in known_hit}.values():
         lines.append(f"KNOWN-FINDING: property={prop} {kf['what']}")
@@ -163,6 +197,7 @@ def run(prop, tier, seed, replay=None):
         "disagreements_checked": sum(len(r["diffs"]) for r in results),
         "oracle_failures": sum(len(r["fails"]) for r in results),
         "known_findings_hit": [k["id"] for k in known_hit],
+        "unconfirmed_findings": unconfirmed,
         "harness_build_s": round(dt, 1), "lake_s": aud.get("lake_s"),
     }
     if tier == "thorough":
